@@ -522,6 +522,14 @@ func checkRemarksLen(remarks string) string {
 }
 
 func extractAddressInfos(pkScript []byte) (scriptClass txscript.ScriptClass, recipient, staking, binding string, reqSigs int, err error) {
+	// txscript.ExtractPkScriptAddrs dereferences a nil address for a multisig script
+	// whose public key does not parse
+	defer func() {
+		if r := recover(); r != nil {
+			scriptClass, recipient, staking, binding, reqSigs = 0, "", "", "", 0
+			err = fmt.Errorf("invalid output script: %v", r)
+		}
+	}()
 	scriptClass, addrs, _, reqSigs, err := txscript.ExtractPkScriptAddrs(pkScript, config.ChainParams)
 	if err != nil {
 		return 0, "", "", "", 0, err
